@@ -4,9 +4,10 @@
      encode        := wbxml_tree_to_xml      = XML generator (Model/EncXml.v: header + body) on the converted tree
                       (Model/TreeConv.v), with gen_type / indent / keep_ignorable_ws as wbxml_tree_to_xml applies them.
    Definitions only.  Error codes are the numeric values of wbxml_errors.h.
-   Fuel: the parser gets S (length doc) (never exhausted: C01p_total_linear_fuel); the nesting of EMBEDDED
-   documents (a document inside the character data of a <Data> element, inside ...) is bounded by `efuel`, which the C
-   does not bound; running out of it is reported with the code MODEL_FUEL that no C function returns. *)
+   Fuel: the parser gets S (length doc), at both levels (never exhausted: C01p_total_linear_fuel); EMBEDDED documents
+   (a document inside the character data of a <Data> element) nest at most WBXML_MAX_EMBEDDED_DEPTH = 1 deep, and
+   the tree builder's recursion is structural in that number.  The code MODEL_FUEL, which no C function returns,
+   stands for an exhausted fuel; C01c_never_out_of_fuel shows that it is never the result. *)
 From Coq Require Import String Ascii.
 From Coq Require Import List NArith Bool.
 From Wbxml Require Import Model.Codec Model.TablesDefs Model.Parser Model.TreeBuild Model.TreeConv Model.Conv.
@@ -44,10 +45,9 @@ Definition gen_of (g : N) : EncXml.gen_type :=
 
 Section Concrete.
 Variable tbl : list lang.
-Variable efuel : nat.
 
 Definition w2x_tree_from_doc (o : w2x_opts) (doc : list N) : wtree + N :=
-  match tree_from_wbxml tbl (wo_lang o) (wo_charset o) efuel doc with
+  match wbxml_tree_from_wbxml tbl (wo_lang o) (wo_charset o) doc with
   | BOk t => inl t
   | BErr (BE_PARSE e) => inr (perr_code e)
   | BErr BE_INTERNAL => inr INTERNAL
